@@ -1,6 +1,6 @@
 SPECIFICATION Spec
 CONSTANTS
-  Fams = {"publish", "propagate", "extract", "e2e", "e2ept"}
+  Fams = {"publish", "propagate", "extract", "e2e", "e2ept", "e2eobs"}
   Keys = {"k1", "k2", "k3"}
   Vals = {"v1", "v2"}
   MaxCfgs = 2
